@@ -13,8 +13,9 @@ import graphenc
 from common import Ctx, hx, run_model, unhx
 
 FUEL = 600
-NAMES = ["a", "b", "c", "d", "e", "f"]
-SPELL = {"a": ["a", "A"], "b": ["b", "B"], "c": ["c", "C"], "d": ["d"], "e": ["e", "E"], "f": ["f"]}
+# one project has a multi-word name spelled with every separator pip accepts
+NAMES = ["a", "b", "c", "d_x", "e", "f"]
+SPELL = {"a": ["a", "A"], "b": ["b", "B"], "c": ["c", "C"], "d_x": ["d-x", "d_x", "D.x", "d.X"], "e": ["e", "E"], "f": ["f"]}
 VERSION_POOL = ["1.0", "1.1", "2.0", "2.1", "3.0", "1.0.post1", "2.0a1", "2.0rc1", "3.0.dev1", "0.9"]
 SPEC_VERSIONS = ["1.0", "1.1", "2.0", "2.1", "3.0", "2.0a1", "0.9", "2", "1"]
 
@@ -103,9 +104,42 @@ def gen_req(rng, alphabet: List[str], targets: List[str], extras_p: float = 0.25
     return s
 
 
+def gen_cascade(rng, alphabet: List[str]) -> Dict[str, Any]:
+    """Structured scenario: P's newest release needs X; something in X's own subtree (C) rules that release of P out,
+    so X becomes an orphan and is deleted while the solver is still walking X's dependency list; a later sibling
+    dependency of X (U) survives because an input also asks for it.  Roles are dealt to random project names, the
+    dependency list of X, the shape of C's veto, the inputs and their order are random."""
+    names = rng.sample(NAMES, 5)
+    top, p, x, c, u = names
+    sp = lambda n: rng.choice(SPELL[n])
+    v_old, v_new = rng.choice([("1.0", "2.0"), ("1.1", "2.1"), ("0.9", "1.0"), ("1.0", "1.1")])
+    veto = rng.choice(["<" + v_new, "!=" + v_new, "==" + v_old, "<=" + v_old])
+    x_reqs = [sp(c), sp(u) + rng.choice(["", ">=0.9", ">=1.0"])]
+    if rng.random() < 0.4:
+        x_reqs.append(sp(top) if rng.random() < 0.5 else sp(u) + "[" + alphabet[0] + "]")
+    rng.shuffle(x_reqs)
+    universe = {
+        top: [(sp(top), "1.0", [sp(p)] + ([sp(u)] if rng.random() < 0.3 else []), True, False)],
+        p: [(sp(p), v_old, [sp(u)] if rng.random() < 0.3 else [], True, False), (sp(p), v_new, [sp(x)], True, False)],
+        x: [(sp(x), "1.0", x_reqs, True, False)],
+        c: [(sp(c), "1.0", [sp(p) + veto], True, False)],
+        u: [(sp(u), v, [], True, False) for v in rng.sample(["1.0", "2.0", "1.1"], rng.choice([1, 2]))],
+    }
+    for k in universe:
+        rng.shuffle(universe[k])
+    wanted = [sp(top)] + [sp(n) for n in (c, u, p) if rng.random() < 0.75]
+    rng.shuffle(wanted)
+    cut = rng.randrange(1, len(wanted) + 1)
+    inputs = [("in0.txt", wanted[:cut])] + ([("in1.txt", wanted[cut:])] if wanted[cut:] else [])
+    return {"mode": "cascade", "universe": universe, "inputs": inputs, "constraints": None, "remove_constraints": False,
+            "allow_pre": False, "max_downgrade": rng.choice([None, None, 1, 2]), "only_binary": None}
+
+
 def gen_case(rng, alphabet: List[str], mode: Optional[str] = None) -> Dict[str, Any]:
-    """One whole-compile case.  mode: None (mixed) | 'calm' | 'conflict' | 'extras' | 'dense'"""
+    """One whole-compile case.  mode: None (mixed) | 'calm' | 'conflict' | 'extras' | 'dense' | 'cascade'"""
     mode = mode or rng.choice(["calm", "calm", "conflict", "conflict", "extras", "dense"])
+    if mode == "cascade":
+        return gen_cascade(rng, alphabet)
     nproj = rng.choice([2, 3, 4, 4, 5, 6])
     projs = NAMES[:nproj]
     versions: Dict[str, List[str]] = {}
